@@ -528,6 +528,12 @@ def oracle(sc, res):
             if _b(out) != _b(exp["out"]):
                 why = "out-late" if _b(allout) == _b(exp["out"]) else "out-wrong"
                 bad.append((why, "request %s: %s" % (rid, _diff("stdout", out, exp["out"], allout, before, "out"))))
+        if "out_if_done" in exp:
+            stx = set(ms[dones[0]].get("status") or [])
+            want = exp["out_if_done"]
+            ok = (_b(out) == _b(want)) if stx == {"done"} else _b(want).startswith(_b(out))
+            if not ok or _b(allout) != _b(out):
+                bad.append(("out-wrong", "request %s (status %s): %s" % (rid, sorted(stx), _diff("stdout", out, want, allout, before, "out"))))
         if "out_repeat" in exp:
             unit = exp["out_repeat"]
             if out != unit * (len(out) // len(unit)) or (allout != out):
@@ -758,6 +764,57 @@ def make_scenario(kind, rng, k100):
         sc.meta = dict(eval=r, interrupt=i)
         r2 = sc.ev(S1, 'println("after")', [("out", "after\n")], out="after\n", status=DONE, value="Unit")
         sc.wait(r2, 20)
+    elif kind == "pending_interrupt":
+        # An interrupt that is pending (the eval sits inside a long built-in and has not looked at the
+        # flag yet) must survive other requests dispatched to the same session meanwhile: the reader's
+        # dispatch does not touch the flag.
+        w = sc.ev(S1, "1", [("nop",)], fin=("lit", "1"), status=DONE, value="1")   # worker warm and idle
+        sc.wait(w, 30)
+        code = 'import "__shell.gdn" as shell\nshell::run("sleep", ["2"])\nwhile True { 1 }'
+        r = sc.ev(S1, code, [("nop",)], loop=[("nop",)], status=INT)
+        pl = sc.op("ls-sessions", "ls", expect=dict(status=DONE))   # its reply = eval handed to the worker
+        sc.wait(pl, 30)
+        sc.sleep(rng.uniform(0.5, 0.8))
+        i = sc.op("interrupt", "interrupt", session=S1, expect=dict(status=DONE))
+        sc.wait(i, 5)
+        sc.sleep(rng.uniform(0.1, 0.4))
+        which = rng.choice(["completions", "lookup", "eval"])
+        if which == "completions":
+            q = sc.op("completions", "query", session=S1, expect=dict(status=DONE), prefix="pr")
+        elif which == "lookup":
+            q = sc.op("lookup", "query", session=S1, expect=dict(status=DONE), sym="println")
+        else:
+            q = sc.ev(S1, 'println("queued")', [("out", "queued\n")], out="queued\n", status=DONE, value="Unit")
+        sc.wait(r, 12)     # sleep 2 s, then the first flag test must see the interrupt
+        sc.wait(q, 10)     # and the later request is answered
+    elif kind == "pipelined_close":
+        # a pipelining client: evals and `close` sent back to back without waiting for replies.  Every
+        # request that was sent gets exactly one final `done`: the running eval may end interrupted,
+        # requests still queued when the close is handled are still dequeued and answered, requests
+        # after the close get unknown-session.
+        ANY = [DONE, INT]
+        ids = []
+        if rng.random() < 0.7:
+            ids.append(sc.ev(S1, "1", [("nop",)], fin=("lit", "1"), status_any=ANY))   # first request, not awaited
+        t1 = tok()
+        ids.append(sc.ev(S1, busy(int(k100 * rng.uniform(0.5, 2.5))) + 'println("%s")' % t1,
+                         [("nop",), ("out", t1 + "\n")], status_any=ANY, out_if_done=t1 + "\n"))
+        for _ in range(rng.randint(1, 3)):
+            t = tok()
+            if rng.random() < 0.25:
+                ids.append(sc.op(rng.choice(["completions", "lookup"]), "query", session=S1,
+                                 expect=dict(status=DONE), prefix="pr", sym="println"))
+            else:
+                ids.append(sc.ev(S1, 'println("%s")' % t, [("out", t + "\n")], status_any=ANY, out_if_done=t + "\n"))
+        ids.append(sc.op("close", "close", session=S1, expect=dict(status={"done", "session-closed"})))
+        for _ in range(rng.randint(0, 2)):
+            if rng.random() < 0.5:
+                ids.append(sc.ev(S1, 'println("late")', [("out", "late\n")], out="", status=UNK))
+            else:
+                ids.append(sc.op("interrupt", "interrupt", session=S1, expect=dict(status=UNK)))
+        ids.append(sc.op("ls-sessions", "ls", expect=dict(status=DONE)))
+        for rid in ids:
+            sc.wait(rid, 15)
     elif kind == "close_before_reset":
         # close lands between the dequeue and the flag reset (needs after_dequeue delay)
         t = tok()
@@ -934,7 +991,7 @@ def run_configs(ctx, prop, configs, n, extra_oracle=None, n_by_kind=None):
             for key, what in bad:
                 full = key if key.startswith(prop + "/") else "%s/%s/%s" % (prop, kind, key)
                 ctx.fail(full, "[%s, delays %s] %s" % (kind, dl, what), **replay)
-            ctx.case((kind, dl, [m for m in sc.steps if m[0] == "send"]), nontrivial=multi or intr or kind in ("two_sessions", "closed_session", "flusher_gap", "big_output") or kind.startswith("parse_window"))
+            ctx.case((kind, dl, [m for m in sc.steps if m[0] == "send"]), nontrivial=multi or intr or kind in ("two_sessions", "closed_session", "flusher_gap", "big_output", "pending_interrupt", "pipelined_close") or kind.startswith("parse_window"))
             ctx.sample(dict(schedule=kind, delays=dl, received=[abbreviate(m, 200) for m in res["received"][:8]]))
             if kind == "big_output":
                 for m in res["received"]:
